@@ -143,6 +143,8 @@ def gen_case(seed):
     # (own stream: the cases of earlier seeds keep their shape)
     del_party = Rng(derive(seed, 'del_party')).chance(25)
     gen_empty = Rng(derive(seed, 'gen_empty')).chance(25)
+    # a cell moved away and a new one generated under its key, in ONE update dictionary
+    move_gen = Rng(derive(seed, 'move_gen')).chance(15)
     names = ['n'] + r.sample([v for v in VAR_MENU if v not in ('n', 't')], r.rint(1, 5))
     if swarm['steps']:
         names.append('t')
@@ -240,6 +242,10 @@ def gen_case(seed):
                 menu += [['move', rr.below(4), src, dst]] * 2
         if swarm['combo']:
             menu += [['add_del', _state_for(rr, cellvars), rr.below(4)]]
+        if move_gen:
+            src_, dst_ = rr.pick([('agents', 'pool'), ('pool', 'agents')])
+            menu += [['move_gen', rr.below(4), src_, dst_, rr.pick(['cellA', 'cellB']),
+                      _state_for(rr, cellvars)]] * 2
         if swarm['illegal']:
             menu += [['add_existing', rr.below(4)], ['add_twice', _state_for(rr, cellvars)]]
         menu += [['write', rr.below(4), 'n', rr.rint(1, 9)]]
